@@ -175,7 +175,7 @@ func (ch c01) Run(c *core.Ctx) {
 			e.Stop()
 		}
 	}()
-	n := 400
+	n := 2500
 	if c.Tier == "thorough" {
 		n = 6500
 	}
